@@ -916,8 +916,8 @@ func rangeHeaderFor(ia *ssa.IndexAddr, v ssa.Value) *ssa.BasicBlock {
 		if rangeCollectionOfHeader(h) == v && h.Succs[0] == ia.Block() {
 			return h
 		}
-		if coll := rangeCollectionOfHeader(h); coll != nil && coll == v && h.Dominates(ia.Block()) {
-			return h
+		if coll := rangeCollectionOfHeader(h); coll != nil && coll == v && h.Dominates(ia.Block()) && isRangeCounter(ia.Index, h) {
+			return h // the loop whose own counter is the index (an earlier loop over the same slice also dominates)
 		}
 	}
 	return nil
@@ -1125,6 +1125,14 @@ func implementsErrorOrStringer(t types.Type) bool {
 
 // isRangeCounter: idx is the counter (phi+1) of the rangeindex loop with header h.
 func isRangeCounter(idx ssa.Value, h *ssa.BasicBlock) bool {
+	// classic index loop `for i := 0; i < len(x); i++` (recognised by rangeCollectionOfHeader): the counter itself
+	if phi, ok := idx.(*ssa.Phi); ok && phi.Block() == h && rangeCollectionOfHeader(h) != nil {
+		if iff, ok := h.Instrs[len(h.Instrs)-1].(*ssa.If); ok {
+			if cmp, ok := iff.Cond.(*ssa.BinOp); ok && cmp.X == ssa.Value(phi) {
+				return true
+			}
+		}
+	}
 	bo, ok := idx.(*ssa.BinOp)
 	if !ok || bo.Op != token.ADD {
 		return false
